@@ -815,6 +815,8 @@ func genC15(c *Ctx) {
 	genC15RestrictedJoin(c)
 	genC15Make(c)
 	genC15Perform(c)
+	genC15PerformInvite(c)
+	genC15InviteV3(c)
 }
 
 func (c *Ctx) c15Run(impl string, scen interface{}, desc string) []byte {
